@@ -83,9 +83,16 @@ func newServerSocket(
 		s.recovered = true
 		s.Join(previousSession.Rooms...)
 		for _, missedPacket := range previousSession.MissedPackets {
-			buffers, err := s.parser.Encode(missedPacket.Header, &missedPacket.Data)
-			if err != nil {
-				return nil, err
+			// Replay the frames that were broadcast. Encoding rewrites the header and the
+			// binary values of the data in place, so the packet cannot be encoded again.
+			buffers := missedPacket.Buffers
+			if buffers == nil {
+				// An adapter that doesn't keep the frames. Only text packets survive this.
+				var err error
+				buffers, err = s.parser.Encode(missedPacket.Header, &missedPacket.Data)
+				if err != nil {
+					return nil, err
+				}
 			}
 			s.conn.sendBuffers(buffers...)
 		}
